@@ -159,6 +159,43 @@ pub fn gen_grammar(r: &mut Rng, c: &GenCfg) -> Vec<GRule> {
     rules
 }
 
+/// stack-heavy expressions: several PUSHes of different literals followed by alternatives / optionals /
+/// repetitions whose bodies pop, drop and peek (whole stack and slices) and often fail half-way, so that
+/// "an expression may change the stack only if it matches" and "a failing expression consumes nothing"
+/// are exercised with at least two stack entries and partial matches
+pub fn gen_stack_expr(r: &mut Rng, d: u32, extras: bool) -> GE {
+    use GE::*;
+    let lit = |r: &mut Rng| ["x", "y", "xy", "yx"][r.weighted(&[4, 4, 2, 1])].to_string();
+    if d == 0 || r.chance(1, 5) {
+        return match r.weighted(&[8, 5, 3, 3, 3, 2, 4, 4, if extras { 2 } else { 0 }]) {
+            0 => Push(Box::new(Str(lit(r)))), 1 => Str(lit(r)), 2 => Id("DROP".into()), 3 => Id("POP".into()), 4 => Id("PEEK".into()),
+            5 => Id(["PEEK_ALL", "POP_ALL"][r.below(2) as usize].into()),
+            6 => Slice(r.below(4) as i32 - 1, if r.chance(1, 2) { None } else { Some(r.below(4) as i32 - 1) }),
+            7 => Push(Box::new(Range('x', 'y'))),
+            _ => PushLit(lit(r)),
+        };
+    }
+    let mut sub = |r: &mut Rng| Box::new(gen_stack_expr(r, d - 1, extras));
+    match r.weighted(&[12, 8, 3, 3, 2, 2, 2]) {
+        0 => Seq(sub(r), sub(r)), 1 => Cho(sub(r), sub(r)), 2 => Opt(sub(r)),
+        3 => { let b = sub(r); Rep(Box::new(Seq(Box::new(Range('x', 'y')), b))) }      // progressing repetition
+        4 => Neg(sub(r)), 5 => Pos(sub(r)), _ => Push(sub(r)),
+    }
+}
+pub fn gen_stack_grammar(r: &mut Rng, extras: bool) -> Vec<GRule> {
+    use GE::*;
+    let tys = [Ty::Normal, Ty::Normal, Ty::Atomic, Ty::Compound, Ty::NonAtomic, Ty::Silent];
+    // r0 = PUSH(a) ~ PUSH(b) ~ body ~ (r1)?   r1 = second body
+    let d = r.range(2, 4) as u32;
+    let body0 = gen_stack_expr(r, d, extras);
+    let body1 = gen_stack_expr(r, d, extras);
+    let first = Seq(Box::new(Push(Box::new(Str(["x", "y"][r.below(2) as usize].into())))),
+        Box::new(Seq(Box::new(Push(Box::new(Str(["y", "xy", "x"][r.below(3) as usize].into())))), Box::new(Seq(Box::new(body0), Box::new(Opt(Box::new(Id("r1".into())))))))));
+    let mut rules = vec![GRule { name: "r0".into(), ty: tys[r.below(5) as usize], e: first }, GRule { name: "r1".into(), ty: tys[r.below(6) as usize], e: body1 }];
+    if r.chance(1, 3) { rules.push(GRule { name: "WHITESPACE".into(), ty: Ty::Silent, e: Str(" ".into()) }); }
+    rules
+}
+
 /// all strings of length <= n over the alphabet
 pub fn all_strings(alpha: &[&str], n: usize) -> Vec<String> {
     let mut out = vec![String::new()];
